@@ -544,13 +544,61 @@ def _spawned_scenarios() -> list[Scenario]:
     return out
 
 
+# ---- "only ever lands on the object it was computed for": what is accumulated for an object that is GONE goes nowhere -------------------
+
+def _gone_scenarios() -> list[Scenario]:
+    from kv.harness.change import ChangeScenario
+
+    class GoneObjectScenario(ChangeScenario):
+        """Every handler of the operator notes in the status the uid of the object it was invoked for. The object is deleted and its name taken
+        again at once: whatever the operator writes, the note on an object names THAT object."""
+        name = 'c08-gone'
+        prop = 'C08'
+
+        def check(self, env: Env) -> list[Violation]:
+            if env.end_reason in ('stall', 'livelock', 'step-budget', 'deadlock'):
+                return [self.viol(env, 'no-progress', f'execution ended with {env.end_reason}', end=env.end_reason)]
+            out = []
+            # which event of the noted object was being handled when the write was made (by position in the observation log)
+            last_type: dict[str, Any] = {}
+            types_at_write: dict[int, dict[str, Any]] = {}
+            for t, k, p in env.obs:
+                if k == 'call' and p['id'] == 'ev':
+                    last_type[p['uid']] = p.get('etype')
+                elif k == 'write':
+                    types_at_write[p['idx']] = dict(last_type)
+            for idx, w in enumerate(env.world.writes):
+                if not w['actor'].startswith('op:') or w['post'] is None:
+                    continue
+                by = (w['post'].get('status') or {}).get('by')
+                if by is not None and by != w['post']['metadata']['uid'] and (w['pre'] is None or (w['pre'].get('status') or {}).get('by') != by):
+                    # the known defect: the name is re-taken between an event of the LIVE object and the PATCH computed from it (merge-patches are
+                    # addressed by name). Something else: a patch accumulated while handling the DELETED event of the gone object is sent at all.
+                    how = 'gone-object-patched' if types_at_write.get(idx, {}).get(by) == 'DELETED' else 'name-reuse'
+                    out.append(self.viol(env, 'wrong-object', f"t={w['t']}: {w['actor']} wrote the note of object {by} onto object {w['post']['metadata']['uid']} "
+                                                              f"(same name {w['name']!r})", **({'clause': 'right-object'} if how != 'name-reuse' else {}), how=how, ctype='merge'))
+            return out
+    globals()['GoneObjectScenario'] = GoneObjectScenario
+    st = {'persistence__consistency_timeout': 5.0}
+    out: list[Scenario] = []
+    regs = {'event-only': [dict(id='ev', on='event', script=['ok+uid'])],
+            'event+filtered-out': [dict(id='ev', on='event', script=['ok+uid']), dict(id='c1', on='create', script=['ok'], labels={'managed': 'yes'})],
+            'event+daemon': [dict(id='ev', on='event', script=['ok+uid']), dict(id='dm', on='daemon', reaction='obeys')],
+            'event+change': [dict(id='ev', on='event', script=['ok+uid']), dict(id='c1', on='create', script=['ok']), dict(id='u1', on='update', script=['ok'])]}
+    for name, handlers in regs.items():
+        for user in ([(1.0, 'create', 'a'), (6.0, 'recreate', 'a')], [(1.0, 'create', 'a'), (6.0, 'status', 'a', 1), (6.0, 'recreate', 'a')],
+                     [(1.0, 'create', 'a'), (6.0, 'recreate', 'a'), (6.0, 'status', 'a', 1)]):
+            out.append(GoneObjectScenario(handlers=handlers, user=user, settings=st, horizon=30.0, registry=name, delays=False, time_dev=False))
+    return out
+
+
 def run(tier: str, seed: int) -> CheckResult:
     base, deep = scenarios(tier)
     loop = _loop_scenarios()
     if tier == 'quick':
-        groups = [('one-foreign-write+injected-answers', base, 2, 50.0), ('two-foreign-writes', deep, 2, 40.0), ('carry-over-in-the-loop', loop, 2, 40.0), ('discovered-status-subresource', discovered_scenarios(), 0, 20.0), ('spawned-siblings', _spawned_scenarios(), 1, 30.0)]
+        groups = [('one-foreign-write+injected-answers', base, 2, 50.0), ('two-foreign-writes', deep, 2, 40.0), ('carry-over-in-the-loop', loop, 2, 40.0), ('discovered-status-subresource', discovered_scenarios(), 0, 20.0), ('spawned-siblings', _spawned_scenarios(), 1, 30.0), ('gone-object', _gone_scenarios(), 1, 20.0)]
     else:
-        groups = [('one-foreign-write+injected-answers', base, 3, 600.0), ('two-foreign-writes', deep, 3, 600.0), ('carry-over-in-the-loop', loop, 3, 600.0), ('discovered-status-subresource', discovered_scenarios(), 1, 60.0), ('spawned-siblings', _spawned_scenarios(), 2, 600.0)]
+        groups = [('one-foreign-write+injected-answers', base, 3, 600.0), ('two-foreign-writes', deep, 3, 600.0), ('carry-over-in-the-loop', loop, 3, 600.0), ('discovered-status-subresource', discovered_scenarios(), 1, 60.0), ('spawned-siblings', _spawned_scenarios(), 2, 600.0), ('gone-object', _gone_scenarios(), 2, 200.0)]
     stats, viols, info, nscen = run_groups(groups, seed=seed)
     return CheckResult(
         prop='C08', tier=tier, seed=seed, stats=stats, violations=viols, scenarios=nscen,
@@ -566,6 +614,9 @@ def run(tier: str, seed: int) -> CheckResult:
 def scenario_from(name: str, params: dict[str, Any]) -> Scenario:
     if name == 'c08-discovered':
         return DiscoveredScenario(**params)
+    if name == 'c08-gone':
+        _gone_scenarios()
+        return globals()['GoneObjectScenario'](**params)
     if name == 'c08-spawned':
         _spawned_scenarios()
         return globals()['SpawnedPatchScenario'](**params)
